@@ -133,31 +133,60 @@ def main():
                     arg = list(reversed(paths))
                 else:
                     arg = [os.path.join(tmp, 'a'), os.path.join(tmp, 'b')]
-                rec = {'set': si, 'partition': pi, 'mode': mode, 'kinds': kinds, 'n_containers': ncont, 'n_chunks': len(chunks),
-                       'pool': [{'key': json.dumps(pe['inputs'], sort_keys=True), 'k': pe['k'], 'trials': pe['trials']} for pe in pool], 'rows': []}
-                try:
-                    with contextlib.redirect_stdout(io.StringIO()):
-                        an = Analysis(arg)
-                    df = an.get_results()
-                    for _, row in df.iterrows():
-                        key = {'code': {'name': row['code'], 'parameters': row['code_params'], 'n': int(row['n']), 'k': int(row['k']), 'd': int(row['d'])},
-                               'error_model': {'name': row['error_model'], 'parameters': row['error_model_params']},
-                               'decoder': {'name': row['decoder'], 'parameters': row['decoder_params']},
-                               'error_rate': float(row['error_rate']), 'method': {'name': row['method'], 'parameters': row['method_params']}}
-                        eff = np.asarray(row['effective_error'])
-                        csp = np.asarray(row['codespace'])
-                        rec['rows'].append({
-                            'key': json.dumps(key, sort_keys=True), 'k': int(row['k']),
-                            'n_trials': int(row['n_trials']), 'n_fail': int(row['n_fail']), 'p_est': float(row['p_est']), 'p_se': float(row['p_se']),
-                            'p_word_est': float(row['p_word_est']), 'p_word_se': float(row['p_word_se']),
-                            'sq_est': np.asarray(row['single_qubit_p_est']).tolist(), 'sq_se': np.asarray(row['single_qubit_p_se']).tolist(),
-                            'n_cs': int(csp.sum()), 'n_fail_X': int(count_fails(eff, csp, 'X')), 'n_fail_Z': int(count_fails(eff, csp, 'Z')),
-                            'len_success': int(len(row['success'])), 'len_eff': int(len(eff))})
-                except Exception as ex:
-                    import traceback
-                    rec['error'] = '%s: %s' % (type(ex).__name__, ex)
-                    rec['trace'] = traceback.format_exc()[-1200:]
-                res.append(rec)
+                def analyse(arg_, pool_now, extra=None):
+                    rec = {'set': si, 'partition': pi, 'mode': mode, 'kinds': kinds, 'n_containers': ncont, 'n_chunks': len(chunks),
+                           'pool': [{'key': json.dumps(pe['inputs'], sort_keys=True), 'k': pe['k'], 'trials': pe['trials']} for pe in pool_now], 'rows': []}
+                    if extra:
+                        rec.update(extra)
+                    try:
+                        with contextlib.redirect_stdout(io.StringIO()):
+                            an = Analysis(arg_)
+                        df = an.get_results()
+                        for _, row in df.iterrows():
+                            key = {'code': {'name': row['code'], 'parameters': row['code_params'], 'n': int(row['n']), 'k': int(row['k']), 'd': int(row['d'])},
+                                   'error_model': {'name': row['error_model'], 'parameters': row['error_model_params']},
+                                   'decoder': {'name': row['decoder'], 'parameters': row['decoder_params']},
+                                   'error_rate': float(row['error_rate']), 'method': {'name': row['method'], 'parameters': row['method_params']}}
+                            eff = np.asarray(row['effective_error'])
+                            csp = np.asarray(row['codespace'])
+                            rec['rows'].append({
+                                'key': json.dumps(key, sort_keys=True), 'k': int(row['k']),
+                                'n_trials': int(row['n_trials']), 'n_fail': int(row['n_fail']), 'p_est': float(row['p_est']), 'p_se': float(row['p_se']),
+                                'p_word_est': float(row['p_word_est']), 'p_word_se': float(row['p_word_se']),
+                                'sq_est': np.asarray(row['single_qubit_p_est']).tolist(), 'sq_se': np.asarray(row['single_qubit_p_se']).tolist(),
+                                'n_cs': int(csp.sum()), 'n_fail_X': int(count_fails(eff, csp, 'X')), 'n_fail_Z': int(count_fails(eff, csp, 'Z')),
+                                'len_success': int(len(row['success'])), 'len_eff': int(len(eff))})
+                    except Exception as ex:
+                        import traceback
+                        rec['error'] = '%s: %s' % (type(ex).__name__, ex)
+                        rec['trace'] = traceback.format_exc()[-1200:]
+                    return rec
+                res.append(analyse(arg, pool))
+                # history: a results file GROWS (a continued run, a re-merge onto the same name) and the same path is analysed again
+                # in the same process: the second analysis must see the new content
+                grow = [pth_ for pth_, kd_ in zip(paths, kinds) if kd_ in ('json', 'gz')]
+                if grow and mode != 'merged' and pi == 0:
+                    gp = grow[0]
+                    raw = json.loads(gzip.open(gp, 'rb').read().decode()) if gp.endswith('.gz') else json.load(open(gp))
+                    lst = raw if isinstance(raw, list) else [raw]
+                    dup = json.loads(json.dumps(lst[0]))
+                    lst2 = lst + [dup]
+                    if gp.endswith('.gz'):
+                        with gzip.open(gp, 'wb') as g_:
+                            g_.write(json.dumps(lst2).encode())
+                    else:
+                        json.dump(lst2, open(gp, 'w'))
+                    os.utime(gp, None)
+                    kinp = json.dumps({k_: dup['inputs'][k_] for k_ in dup['inputs'] if k_ != 'error_rate'}, sort_keys=True)
+                    pool2 = []
+                    for pe in pool:
+                        same = (json.dumps({k_: pe['inputs'][k_] for k_ in pe['inputs'] if k_ != 'error_rate'}, sort_keys=True) == kinp
+                                and abs(pe['inputs']['error_rate'] - dup['inputs']['error_rate']) < 1e-9)
+                        extra_tr = [{'eff': e_, 'succ': bool(s_), 'cs': bool(c_)} for e_, s_, c_ in
+                                    zip(dup['results']['effective_error'], dup['results']['success'], dup['results']['codespace'])] if same else []
+                        pool2.append(dict(pe, trials=pe['trials'] + extra_tr))
+                    res.append(analyse(arg, pool2, {'history': 'the file %s grew by one record and the same path was analysed again in the same process'
+                                                    % os.path.basename(gp)}))
     json.dump(res, open(out, 'w'))
     print(len(res), 'analyses', sum(1 for r in res if 'error' in r), 'errors')
 
